@@ -120,6 +120,18 @@ class CGen:
         return Cast(self.expr(r.choice([INT, BYTE]), d - 1), BOOL)
 
 
+def spec_problem(e, usage):
+    """?? may not appear inside a try body nor inside an operand of another ??"""
+    specs = [x for x in A.walk_expr(e) if isinstance(x, Spec)]
+    if usage == 'tid' and specs:
+        return True
+    for sp in specs:
+        for side in (sp.a, sp.b):
+            if any(isinstance(x, Spec) for x in A.walk_expr(side)):
+                return True
+    return False
+
+
 def has_zero_divisor(e):
     for x in A.walk_expr(e):
         if isinstance(x, Bin) and x.op in '/%' and is_const(x.b):
@@ -246,7 +258,7 @@ def run_shard(spec):
             t = r.choice([INT, INT, BYTE, BOOL])
             init = g.expr(t, 2)
             v = const_eval(init)
-            if v is None:
+            if v is None or spec_problem(init, 'decl'):
                 continue
             if t == BOOL:
                 v = bool(v) if not isinstance(v, (bytes, bytearray)) else len(v) != 0
@@ -254,6 +266,14 @@ def run_shard(spec):
         items = []
         for _ in range(r.randint(3, 8)):
             t = r.choice([INT, INT, BYTE, BOOL, BOOL])
-            items.append((g.expr(t, r.randint(1, 5)), r.choice(['value', 'branch', 'decl', 'tid'])))
+            usage = r.choice(['value', 'branch', 'decl', 'tid'])
+            e = g.expr(t, r.randint(1, 5))
+            for _ in range(10):
+                if not spec_problem(e, usage):
+                    break
+                e = g.expr(t, r.randint(1, 4))
+            else:
+                e = g.lit(t)
+            items.append((e, usage))
         check_items(res, items, g.consts, word, lo, hi)
     return res
